@@ -1132,6 +1132,124 @@ func c12ByteCase(r *Rng) Case {
 	return c
 }
 
+// ---- ASCII bytes that differ only in bit 0x20: only A-Z / a-z are a case pair ----
+// '@'/'`', '['/'{', '\\'/'|', ']'/'}', '^'/'~', '_'/DEL are NOT; ignore-case must keep them apart
+var c12PairBytes = []byte{'@', '`', '[', '{', '\\', '|', ']', '}', '^', '~', '_', 0x7f}
+var c12PairOther = []byte{'a', 'A', 'z', 'Z', 'm', 'M', ' ', '0', ':', '"', '='}
+
+func c12PairLit(r *Rng) string {
+	n := r.Range(1, 3)
+	b := make([]byte, n)
+	for i := range b {
+		if i == 0 || r.Chance(1, 2) {
+			b[i] = Pick(r, c12PairBytes)
+		} else {
+			b[i] = Pick(r, c12PairOther)
+		}
+	}
+	if r.Chance(1, 3) { // exactly one punctuation byte: the commonest delimiter shape
+		b = b[:1]
+	}
+	return string(b)
+}
+
+// the same text with bit 0x20 flipped in its letters and in its A..z punctuation (all or some)
+func c12Partner(r *Rng, s string, all bool) string {
+	b := []byte(s)
+	for i, c := range b {
+		if (c >= '@' && c <= 0x7f) && (all || r.Bool()) {
+			b[i] = c ^ 0x20
+		}
+	}
+	return string(b)
+}
+
+func c12PairCase(r *Rng) Case {
+	var p c12Pat
+	if r.Chance(3, 5) {
+		p.prefix = c12PairLit(r)
+	}
+	ntok := r.Range(1, 3)
+	for i := 0; i < ntok; i++ {
+		key := fmt.Sprintf("k%d", i)
+		if r.Chance(1, 6) {
+			key = ""
+		}
+		until := ""
+		if i+1 < ntok || r.Chance(2, 3) {
+			until = c12PairLit(r)
+		}
+		p.keys = append(p.keys, key)
+		p.untils = append(p.untils, until)
+	}
+	var sb strings.Builder
+	sb.WriteString(p.prefix)
+	for i := range p.keys {
+		sb.WriteString("%{" + p.keys[i] + "}" + p.untils[i])
+	}
+	p.text = sb.String()
+	fill := func() string {
+		return Pick(r, []string{"", "x", "12:00", "svc", "A b", "warn", "\"v\":1"})
+	}
+	lines := make([][]byte, r.Range(2, 7))
+	for i := range lines {
+		var lb strings.Builder
+		omit := -2
+		if r.Chance(1, 4) {
+			omit = r.Range(-1, len(p.untils)-1)
+		}
+		lits := append([]string{p.prefix}, p.untils...)
+		for j, lit := range lits {
+			if j > 0 {
+				lb.WriteString(fill())
+			}
+			if lit == "" {
+				continue
+			}
+			// the 0x20-partner of the literal at or before the real one
+			switch r.Intn(4) {
+			case 0:
+				lb.WriteString(c12Partner(r, lit, true) + fill())
+			case 1:
+				lb.WriteString(fill() + c12Partner(r, lit, false) + fill())
+			}
+			if omit != j-1 {
+				if r.Chance(1, 3) {
+					lb.WriteString(c12VaryCase(r, lit, 1)) // letters in the other case: a genuine ignore-case match
+				} else {
+					lb.WriteString(lit)
+				}
+			}
+		}
+		lb.WriteString(fill())
+		lines[i] = []byte(lb.String())
+	}
+	mode := 2
+	if r.Chance(1, 3) {
+		mode = 1
+	}
+	c := c12MkCase(mode, p.text, lines)
+	c.Tags = append(c.Tags, "bit-0x20-pairs([{ \\\\| ]} ^~ _DEL @`)")
+	return c
+}
+
+// exhaustive: every ASCII byte b as a one-byte pattern, every ASCII byte c as the line "c" and as the
+// line "c b" (candidate before the real literal); both modes. Per the model, ignore-case matches
+// at c iff lower(b) = lower(c).
+func c12Sweep() []Case {
+	var cases []Case
+	for b := 0; b < 128; b++ {
+		lines := make([][]byte, 0, 256)
+		for c := 0; c < 128; c++ {
+			lines = append(lines, []byte{byte(c)}, []byte{byte(c), byte(b)})
+		}
+		cs := c12MkCase(2, string([]byte{byte(b)}), lines)
+		cs.Tags = append(cs.Tags, "sweep(one-byte literal x candidate byte)")
+		cases = append(cases, cs)
+	}
+	return cases
+}
+
 func c12Mode(r *Rng) int {
 	switch x := r.Intn(10); {
 	case x < 6:
@@ -1226,6 +1344,10 @@ func c12Fixed() []Case {
 		mk(2, "\xef\xbf\xbd%{k0} %{k1}", "\x80junk \xef\xbf\xbdkey value", "\xf0\x9f junk and no replacement"),
 		mk(0, "%{k0}\xff%{k1}", "a\xef\xbf\xbdb", "a\x80b\xffc", "\xff", "a\xc3\xa9\xffz"),
 		mk(2, "%{a}\xc3%{b}\x80", "x\xc3\xa9\xc3y\x80", "\xe9\xc3\x80", "\x80\xc3"),
+		// bytes that differ only in bit 0x20 but are not a case pair
+		mk(2, "[%{ts}] %{msg}", "{\"svc\":\"A\"} [12:00] Started", "{x} [y] z", "[Y] Z"),
+		mk(2, "lvl|%{l}", "LVL\\warn", "LVL|warn", "lvl\\x lvl|y"),
+		mk(1, "%{a}_%{b}^%{c}@", "1\x7f2_3~4^5`6@", "1_2^3`"),
 		// one instance, history: match, miss, shorter, longer, repeat
 		mk(2, "a=%{x};b=%{y} ", "a=1;b=2 ", "nothing", "a=1;b= ", "zz a=123456;b=7890 tail", "a=1;b=2 ", "A=1;B=2 ", "a=1;b=2 "),
 		// instances of one factory used at once
@@ -1240,7 +1362,7 @@ func c12Fixed() []Case {
 func c12Gen(r *Rng, n int, tier string) []Case {
 	// lib.NewRng(seed) and NewRng(seed+1) are the same SplitMix64 stream shifted by one draw; decorrelate
 	r = r.Fork()
-	cases := c12Fixed()
+	cases := append(c12Fixed(), c12Sweep()...)
 	nlong := 2
 	if tier == "thorough" {
 		nlong = 12
@@ -1267,6 +1389,8 @@ func c12Gen(r *Rng, n int, tier string) []Case {
 		switch x := r.Intn(100); {
 		case x >= 88:
 			cases = append(cases, c12ByteCase(r))
+		case x >= 78:
+			cases = append(cases, c12PairCase(r))
 		case x < 8:
 			cases = append(cases, c12Concurrent(r, p, pat, c12Mode(r)))
 		case x < 18:
@@ -1300,6 +1424,8 @@ func main() {
 			"patterns = optional prefix literal + 0..5 tokens (named / ?named / empty; occasional duplicate name, adjacent tokens, unclosed token, trailing junk, pattern soup) with literals of length 0..4 over {a,b,A,e-acute(2 bytes),%,space} (+ rare ; B E-acute { } ? Z [ @ z), 40% ASCII-only without '%', 20% ASCII with '%'; " +
 			"1..6 lines per pattern, each built from the pattern (fillers containing a partial/complete/next delimiter or the prefix, case-flipped literals, one delimiter or the prefix omitted, junk before/after) or arbitrary bytes / alphabet soup / empty; mode in {case-sensitive, ignore-case, both}; " +
 			"12% BYTEWISE cases: literals (leading, inner, trailing) drawn from {single ASCII byte, multi-byte rune (2/3/4 bytes), U+FFFD, a lone invalid byte ff/c3/80/fe, a truncated multi-byte prefix, mixtures of two or three of these}, 2..8 lines each built from noise over {latin-1 byte, stray continuation bytes, overlong / surrogate / out-of-range sequences, truncated prefixes, U+FFFD, valid runes, ASCII} placed before, between and after the literals, with a literal omitted or truncated in a third of the lines; mostly case-sensitive (the specification is bytewise: first occurrence of the literal's bytes); " +
+			"exhaustive sweep (every run): each ASCII byte b as a one-byte pattern x each ASCII byte c as the lines [c] and [c b], both modes (ignore-case matches at c iff lower(b)=lower(c)); " +
+			"10% BIT-0x20 cases (ignore-case or both): literals of 1..3 bytes over {@ ` [ { \\ | ] } ^ ~ _ DEL} + letters/space/digit/punctuation, lines in which the literal's 0x20-partner (all or some bytes flipped) stands at or before the real literal, the literal in the other letter case, or omitted; " +
 			"2 (quick) / 12 (thorough) sequences of >= 3000 lines on one instance with every result re-read after the last call; " +
 			"10% SEQUENCE cases: one compiled pattern, one instance, 8..60 lines with history (fresh / exact repeat of the previous or an earlier line / proper prefix or suffix of the previous (shorter) / previous plus text or doubled (longer) / same length with one byte changed), every returned slice re-read after the last call, each result compared with the model of that line alone; " +
 			"8% CONCURRENT cases: one compiled pattern, matchers.ToFactory, 2..8 instances each with its own 2..12-line sequence: first used interleaved round-robin in one goroutine, then a fresh instance per goroutine (created inside it, released together) matching its lines for 1+1500/len rounds; per line the round-0 result is reported unless any round returned, or any held slice later re-read as, something else (then that value); every instance run is compared with the model of its own lines alone. " +
